@@ -165,6 +165,35 @@ func programs() []prog {
 				return w.membership()
 			}
 	})
+	// two joiners replay the chat history at the same time while it holds
+	// entries that have just become too old (a replay prunes them)
+	add("history-replay-vs-history-replay", func() ([]func(), []string, func() (string, *core.Violation)) {
+		newWorld(descPlain)
+		g, _ := group.Add("g", nil)
+		old := vtime.Now().Add(-100 * time.Hour)
+		for i := 0; i < 3; i++ {
+			g.AddToChatHistory(fmt.Sprint("old", i), "a", nil, old, "", "x")
+		}
+		for i := 0; i < 2; i++ {
+			g.AddToChatHistory(fmt.Sprint("new", i), "a", nil, vtime.Now(), "", "y")
+		}
+		var got [2][]string
+		replay := func(k int) func() {
+			return func() {
+				for _, e := range g.GetChatHistory() {
+					got[k] = append(got[k], e.Id)
+				}
+			}
+		}
+		return []func(){replay(0), replay(1)}, []string{"replay-1", "replay-2"}, func() (string, *core.Violation) {
+			for k := range got {
+				if fmt.Sprint(got[k]) != "[new0 new1]" {
+					return "", &core.Violation{Signature: "C13/history-corrupted-under-concurrency", What: fmt.Sprintf("replay %d returned %v, the live entries are [new0 new1]", k+1, got[k])}
+				}
+			}
+			return "ok", nil
+		}
+	})
 	add("status-vs-join-vs-leave", func() ([]func(), []string, func() (string, *core.Violation)) {
 		w := newWorld(descPlain)
 		w.join(w.a, "alice", "pa")
